@@ -109,6 +109,22 @@ def kill (k : Kernel) (pid sig : Nat) : Kernel × PState :=
       (k.resolve, .run)
     else (k, p.st)
 
+/-- the daemon is not permitted to signal `pid`: the process exists (also as a zombie: the permission check
+    comes first) and runs under another uid -/
+def denies (k : Kernel) (pid : Nat) : Bool :=
+  match k.find pid with
+  | some p => p.st ≠ .gone && p.behav.eperm
+  | none => false
+
+def stAt (k : Kernel) (pid : Nat) : PState :=
+  match k.find pid with | some p => p.st | none => .gone
+
+/-- os.kill issued by the daemon itself (`kill` is the outside world's, which is always permitted): the state of
+    the target at delivery, and whether the call was refused with EPERM — then nothing is delivered -/
+def killD (k : Kernel) (pid sig : Nat) : Kernel × PState × Bool :=
+  if k.tick.denies pid then (k.tick, k.tick.stAt pid, true)
+  else ((k.kill pid sig).1, (k.kill pid sig).2, false)
+
 inductive WaitRes where
   | echild
   | none                       -- (0, 0)
@@ -172,7 +188,7 @@ def behavAt (k : Kernel) : Behav :=
 def mkKids (parent : Nat) (b : Behav) : Nat → Nat → List KProc
   | 0, _ => []
   | n + 1, pid => { pid := pid, ppid := some parent, st := .run, status := 0, doom := none,
-                    behav := { term := b.kidTerm, killLat := 0 } } :: mkKids parent b n (pid + 1)
+                    behav := { term := b.kidTerm, killLat := 0, eperm := b.kidEperm } } :: mkKids parent b n (pid + 1)
 
 /-- Popen(): `none` = OSError -/
 def spawn (k : Kernel) : Kernel × Option Nat :=
@@ -201,10 +217,23 @@ end Kernel
 
 /-! monadic wrappers that also write the ghost log, like the harness' `Kernel.out` -/
 
-def kKill (pid sig : Nat) (via : String := "") : M Bool := do
+/-- outcome of a signal the daemon sends: delivered (also to a zombie), `NoSuchProcess` (ESRCH), `AccessDenied` (EPERM) -/
+inductive SigRes where
+  | ok | noSuch | denied
+  deriving Repr, DecidableEq, Inhabited
+
+def SigRes.of (r : PState × Bool) : SigRes := if r.2 then .denied else if r.1 = .gone then .noSuch else .ok
+
+/-- `psutil.Process.send_signal` / `terminate`; a refused call is logged with a `!` after its `via` tag -/
+def kKill (pid sig : Nat) (via : String := "") : M SigRes := do
+  let r ← runK fun k => k.killD pid sig
+  emit (.sig pid sig r.1 (if r.2 then via ++ "!" else via))
+  pure (SigRes.of r)
+
+/-- a signal from the outside world (always permitted) -/
+def xKill (pid sig : Nat) : M Unit := do
   let st ← runK fun k => k.kill pid sig
-  emit (.sig pid sig st via)
-  pure (st ≠ .gone)
+  emit (.sig pid sig st "x")
 
 def kWaitpid (pid : Option Nat) : M Kernel.WaitRes := do
   let r ← runK fun k => k.waitpid pid
